@@ -109,7 +109,7 @@ def main():
         open(path, "w").write(s)
         sh(f"git -C {WT} checkout -q -- .")
     sh(f"git -C /repo worktree remove --force {WT}")
-    sh("rm -rf /verif/violations")
+    sh("rm -rf /verif/violations-scratch")
 
 
 if __name__ == "__main__":
